@@ -858,9 +858,38 @@ fn gen_c07(g: &mut Gen, id: usize) -> Vec<String> {
         let gi = cg.group(&mut dz, 100, 0, Some(0));
         other_rows.extend(dz.auths[gi].users.rows.iter());
         other_rows.extend(dz.auths[gi].rights.rows.iter());
+        // a room not seen before must replay as a whole: sometimes one entry is not entitled
+        if cg.g.chance(1, 3) {
+            let gz = dz.auths[gi].id;
+            let by = *cg.g.pick(&[6u64, 2, 3]);
+            let tt = *cg.g.pick(&[100i64, 300, 50]);
+            match cg.g.below(4) {
+                0 => {
+                    let mut l = std::mem::take(&mut dz.auths[gi].users);
+                    cg.entry(&mut l, gz, 101, 34, 102, tt, by, PBody::User(by, true));
+                    dz.auths[gi].users = l;
+                }
+                1 => {
+                    let mut l = std::mem::take(&mut dz.auths[gi].rights);
+                    cg.entry(&mut l, gz, 101, 33, 103, tt, by, PBody::Right(0, true, true));
+                    dz.auths[gi].rights = l;
+                }
+                2 => {
+                    let mut l = std::mem::take(&mut dz.admins);
+                    cg.entry(&mut l, z, 100, 32, 102, tt, by, PBody::User(by, true));
+                    dz.admins = l;
+                }
+                _ => {
+                    let mut l = std::mem::take(&mut dz.auths[gi].uadmins);
+                    cg.entry(&mut l, gz, 101, 35, 102, tt, by, PBody::User(by, true));
+                    dz.auths[gi].uadmins = l;
+                }
+            }
+        }
         cg.emit(&dz);
         cg.out.push(format!("install room={}", z));
         cg.out.push("dump".to_string());
+        cg.out.push(format!("probe room={} dates={}", z, PROBE_DATES));
     }
     // ---- candidates received from peers
     let rounds = 1 + cg.g.below(4);
